@@ -3,7 +3,7 @@ from props import standard_check
 
 def check_C16(tier, seed):
     return standard_check(
-        "C16", tier, seed, "wire", ["c16_xor"],
+        "C16", tier, seed, "wire", ["c16_xor", "c16_int", "c16_rows"],
         trusted=["bitbuffer 0.10 LittleEndian bit order and write_int truncation (modelled as bits_of); capnp packing not modelled (bytes compared before/after it)"],
         assumptions=["floats are their 64-bit patterns", "sequence length < 2^64"],
         rule="seeded generator over 9 float-sequence classes x mantissa None/0..52 x 8 max_regret values x optional truncation; "
